@@ -4,7 +4,8 @@
    macro case of OpCallIndirect in run.go: the renderer switch on the format)
    and macro call taken as a value and shown.  defer/recover is modelled as a
    flag on the function (its body starts by deferring a function that calls
-   recover).  Writers are as in RendererM.  The expression language, the show
+   recover; the flag also stands for the mere presence of a deferred call, which
+   changes how the function returns).  Writers are as in RendererM.  The expression language, the show
    functions outside URLs and the Markdown converter are parameters.
    No proofs here. *)
 From Verif Require Import Bytes Facts_render RendererM.
@@ -14,8 +15,11 @@ Inductive tnode :=
 | TText (txt : bytes) (u isSet : bool)        (* OpText *)
 | TShow (c : N) (v : shown)                   (* OpShow of a value *)
 | TCall (f : tfunc) (b : N)                   (* call of a macro with B = the format of the caller's context *)
-| TCallShow (f : tfunc) (c : N) (ty : N)      (* call with B = ReturnString, then OpShow of the string as a value of
-                                                 the format type ty in the context c *)
+| TCallShow (f : tfunc) (c : N) (ty : N) (native : bool)
+                                              (* call with B = ReturnString, then OpShow of the string as a value of
+                                                 the format type ty in the context c; native = the macro is held in
+                                                 an indirect variable, loaded as a native function value and run by
+                                                 callable.Value in a new VM *)
 with tfunc :=
 | TFunc (fmt : N) (recovers : bool) (body : list tnode).
 
@@ -71,7 +75,10 @@ Section Exec.
           (* vm.renderer = newRenderer(&bytes.Buffer{}) *)
           match exec_list never r0 w0 body with
           | (_, bws, Done) =>
-            (* OpReturn: err := vm.env.conv(out.Bytes(), call.renderer.out); panic(&fatalError{msg: err}) *)
+            (* a function with a deferred call does not return through OpReturn but through
+               nextCall, which only restores the renderer: nothing is converted, the buffer is dropped *)
+            if rec then (st, ws, Done) else
+            (* OpReturn: err := vm.env.conv(out.Bytes(), call.renderer.out); panic(...) *)
             match run_script w ws (map AWrite (cv (concat (w_out bws)))) with
             | (ws1, ROk) => (st, ws1, Done)
             | (ws1, RErr e) =>
@@ -89,15 +96,20 @@ Section Exec.
         | (_, ws1, Panic e) => if rec then (st, ws1, Done) else (st, ws1, Panic e)
         | (_, ws1, o) => (st, ws1, o)
         end
-    | TCallShow (TFunc fmt rec body) c ty =>
+    | TCallShow (TFunc fmt rec body) c ty native =>
       (* vm.renderer = newRenderer(&strings.Builder{}) *)
       match exec_list never r0 w0 body with
       | (_, bws, Done) =>
-        let '(st1, ws1, r) := r_show w st ws c (showf c ty (concat (w_out bws))) in (st1, ws1, of_res r)
-      | (_, _, Panic e) =>
+        (* with a deferred call the callee returns through nextCall and the result register is
+           never set from the string builder: the value is the empty string; not so in the new
+           VM of callable.Value, which reads the builder after runFunc *)
+        let s := if rec && negb native then [] else concat (w_out bws) in
+        let '(st1, ws1, r) := r_show w st ws c (showf c ty s) in (st1, ws1, of_res r)
+      | (_, bws, Panic e) =>
         if rec then
-          (* the callee returns through nextCall: the result register is not set; modelled as the empty string *)
-          let '(st1, ws1, r) := r_show w st ws c (showf c ty []) in (st1, ws1, of_res r)
+          let s := if native then concat (w_out bws) else [] in
+          let '(st1, ws1, r) := r_show w st ws c (showf c ty s) in (st1, ws1, of_res r)
+        else if native then (st, ws, Fatal (Some e))   (* callable.Value wraps the PanicError in a fatalError *)
         else (st, ws, Panic e)
       | (_, _, o) => (st, ws, o)
       end
@@ -146,7 +158,7 @@ Fixpoint norec_node (n : tnode) : bool :=
   match n with
   | TText _ _ _ | TShow _ _ => true
   | TCall (TFunc _ rec body) _ => negb rec && forallb norec_node body
-  | TCallShow (TFunc _ rec body) _ _ => negb rec && forallb norec_node body
+  | TCallShow (TFunc _ rec body) _ _ _ => negb rec && forallb norec_node body
   end.
 Definition norec_func (f : tfunc) : bool :=
   match f with TFunc _ rec body => negb rec && forallb norec_node body end.
@@ -157,5 +169,5 @@ Fixpoint ok_node (n : tnode) : bool :=
   | TText txt u s => op_ok (OText txt u s)
   | TShow c v => op_ok (OShow c v)
   | TCall (TFunc _ _ body) _ => forallb ok_node body
-  | TCallShow (TFunc _ _ body) c _ => op_ok (OShow c (mkShown [] None None)) && forallb ok_node body
+  | TCallShow (TFunc _ _ body) c _ _ => op_ok (OShow c (mkShown [] None None)) && forallb ok_node body
   end.
